@@ -1,9 +1,11 @@
 (* C14 -- equality is an equivalence relation that implies identical behaviour.
-   The equivalence part is proved; "equal objects behave identically" is decided by the
-   correspondence / direct oracle and carries the known finding D22 (numeric type of range bounds). *)
-From Coq Require Import ZArith NArith List Bool String.
+   The equivalence part is proved.  "Equal objects behave identically" is FALSE in general (known finding D22: the
+   numeric type of a range bound; see C14BehProof.C14_eq_not_behaviour_counterexample); what holds is proved at the end:
+   operand order never matters, objects that are equal up to operand order and keyword order behave identically, and
+   equal_to / not_equal_to do not see the difference between == arguments.  The rest is decided by the direct oracle. *)
+From Coq Require Import ZArith NArith List Bool String Permutation.
 From Valida Require Import Py Lang Defs Cond Dsl Path Cast RuleDefs Rule Eq Inst.
-From Valida.Proofs Require Import C14Proof.
+From Valida.Proofs Require Import C14Proof C14BehProof.
 Import ListNotations.
 
 (* Python's == on document / argument values is an equivalence on well-formed values (every dict
@@ -59,3 +61,50 @@ Theorem C14_rebuilt_copies_equal : forall t c c', build1 T t = Ok c -> build1 T 
   cond1_ok WF T c -> cond1_eqb T c c' = true.
 Proof. exact (C14_rebuild T). Qed.
 Print Assumptions C14_rebuilt_copies_equal.
+
+(* ---- behaviour ---- *)
+
+(* swapping the operands of a combination changes nothing observable: result vector, the three tables, the views and the
+   number of failure reasons are identical (the truth table is permuted); if one order raises so does the other *)
+Theorem C14_commuted_same_behaviour : forall (T : tables) (A : Type) (resolve : A -> res pyval) (o : bop) (a b : cond A) (d : data),
+  res_same (filter_tree T resolve (CBin o a b) d) (filter_tree T resolve (CBin o b a) d).
+Proof. exact C14_commuted_behaviour. Qed.
+Theorem C14_commuted_same_fields : forall (T : tables) (A : Type) (resolve : A -> res pyval) (o : bop) (a b : cond A) (d : data) (f : fres),
+  filter_tree T resolve (CBin o a b) d = Ok f ->
+  exists g : fres,
+    filter_tree T resolve (CBin o b a) d = Ok g /\
+    fr_result f = fr_result g /\ fr_pre f = fr_pre g /\ fr_cerr f = fr_cerr g /\ fr_cfalse f = fr_cfalse g /\
+    Permutation (fr_tt f) (fr_tt g) /\
+    obs_filter d f = obs_filter d g /\ (forall i : nat, num_reasons f i = num_reasons g i).
+Proof. exact C14_commuted_fields. Qed.
+
+(* conditions that are the same up to operand order (at any depth) and keyword-argument order filter identically, are ==,
+   and rules / paths made of them judge and select identically *)
+Theorem C14_same_definition_same_filter : forall c1 c2 : cond arg1,
+  cond_same c1 c2 ->
+  forall d : data, res_same (filter_tree T (resolve1 T None) c1 d) (filter_tree T (resolve1 T None) c2 d).
+Proof. exact C14_strict_equal_behaviour_nosrc. Qed.
+Theorem C14_same_definition_equal : forall c1 c2 : cond arg1,
+  cond_same c1 c2 -> cond1_ok wf_val T c1 -> path_args_buildable T c1 -> cond1_eqb T c1 c2 = true.
+Proof. exact C14_cond_same_eq. Qed.
+Theorem C14_same_definition_same_verdict : forall (r1 r2 : rule) (doc : pyval) (copy : option pyval),
+  path_same (r_path r1) (r_path r2) -> r_cast r1 = r_cast r2 -> cond_same (r_cond r1) (r_cond r2) ->
+  (forall l : leaf arg1, In l (leaves (r_cond r1)) -> kw_literal l) ->
+  same_outcome (rule_test T r1 doc copy) (rule_test T r2 doc copy).
+Proof. exact C14_strict_equal_rule_test. Qed.
+Theorem C14_same_definition_same_selection : forall (A : Type) (resolve : A -> res pyval) (p1 p2 : dpath A) (data : option pyval) (rp : bool),
+  path_same p1 p2 -> path_kw_resolvable A resolve p1 ->
+  same_outcome (get_data T resolve p1 data rp) (get_data T resolve p2 data rp).
+Proof. exact C14_path_same_get_data. Qed.
+
+(* equal_to / not_equal_to (the callables that only use == on their argument) evaluate identically for == arguments *)
+Theorem C14_eq_callables_see_only_equality : forall (A : Type) (resolve : A -> res pyval) (cls : string) (k : dkind) (p : preproc)
+    (ne kwform : bool) (a a' : A) (v v' : pyval),
+  resolve a = Ok v -> resolve a' = Ok v' -> wf_val v = true -> wf_val v' = true -> py_eq v v' = true ->
+  forall x : pyval, wf_val x = true ->
+  eval_item T resolve (eq_leaf cls k p ne kwform a) x = eval_item T resolve (eq_leaf cls k p ne kwform a') x.
+Proof. exact C14_value_type_insensitive_callables. Qed.
+
+Print Assumptions C14_commuted_same_behaviour. Print Assumptions C14_commuted_same_fields. Print Assumptions C14_same_definition_same_filter.
+Print Assumptions C14_same_definition_equal. Print Assumptions C14_same_definition_same_verdict.
+Print Assumptions C14_same_definition_same_selection. Print Assumptions C14_eq_callables_see_only_equality.
